@@ -277,6 +277,52 @@ def cases(tier, seed):
             bad['signature'] = '%s[%s]: %s L=%s' % (bad['tag'], variant, cls, lname)
             return bad
           yield 'array-likes %s d=%d L=%s |x|~%g' % (cls, d, lname, m), ALL_TAGS, thunk2
+  yield from refit_cases(tier, seed)
+
+
+REFIT = (('Covariance', {}), ('LFDA', {}), ('NCA', dict(max_iter=3)), ('RCA_Supervised', dict(n_chunks=8, chunk_size=2)),
+         ('MMC_Supervised', dict(max_iter=3, n_constraints=30)), ('ITML_Supervised', dict(max_iter=3, n_constraints=30)))
+
+
+def refit_cases(tier, seed):
+  """the views must agree for EVERY fitted state, also the second one of the same object: fit, query every view, fit on other data,
+  query every view again (a view that remembers something of the first fit disagrees with the others)"""
+  ml = repo()
+  import inspect
+  for ci, (cls, kw) in enumerate(REFIT):
+    for rep in range(1 if tier == 'quick' else 4):
+      s = seed * 1000 + 17 * ci + rep
+
+      def thunk(cls=cls, kw=kw, s=s):
+        rng = np.random.RandomState(s)
+        d = 3
+        y = np.repeat([0, 1, 2], 10)
+        X1 = rng.randn(30, d) + 2.0 * np.eye(3)[y]
+        X2 = (rng.randn(30, d) * np.array([3.0, 0.5, 1.0])) + 1.5 * np.eye(3)[(y + 1) % 3]
+        klass = getattr(ml, cls)
+        kw2 = dict(kw)
+        if 'random_state' in inspect.signature(klass.__init__).parameters:
+          kw2['random_state'] = 7
+        est = klass(**kw2)
+        P = query_pairs(rng, d, 6, 1.0)
+        with warnings.catch_warnings():
+          warnings.simplefilter('ignore')
+          for step, Xs in enumerate((X1, X2)):
+            try:
+              est.fit(Xs) if cls == 'Covariance' else est.fit(Xs, y)
+            except Exception:
+              return None             # whether this solver succeeds on this data is not C02's business
+            try:
+              bad = check_views(est, np.array(est.components_), P)
+            except Exception as e:
+              bad = _bad('views-raise', TAG_PD, '%s: %s' % (type(e).__name__, e))
+            if bad:
+              bad['input'] = dict(estimator=cls, params=kw2, history='fit(X1, y); views; fit(X2, y); views', failing_step=step,
+                                  X1=X1.tolist(), X2=X2.tolist(), y=y.tolist(), pairs=P.tolist(), seed=s)
+              bad['signature'] = '%s: %s after %s' % (bad['tag'], cls, 'the first fit' if step == 0 else 'a refit')
+              return bad
+        return None
+      yield 'views after fit and refit %s rep=%d' % (cls, rep), ALL_TAGS, thunk
 
 
 def run(tier, seed):
